@@ -17,7 +17,16 @@ type Gen struct {
 	// EqRef is handed to every s:in constraint generated (see EqualRef).
 	EqRef EqualRef
 	OnKin func(kin string, verdict int)
-	n     int
+	// Size > 0: the large-declaration workload (sized.go).  It is the largest
+	// size a declaration may have; the value generator then aims at every
+	// position of a large declaration (any member of an enumeration, complete
+	// records, long arrays and strings).  0 = the ordinary workload, whose
+	// random stream none of the Size branches touches.
+	Size int
+	// Witness (Size > 0 only): a value known to satisfy every constraint of
+	// the top validator; handed out now and then by typed().
+	Witness *Value
+	n       int
 }
 
 // Typedef names the prelude defines: (deftype c14tag (x) x) (deftype c14tagb (x) x)
@@ -764,7 +773,20 @@ func (g *Gen) typed(t string, cons []*Cons, depth int) *Value {
 	}
 	h := &hints{}
 	collect(cons, h)
+	if g.Size > 0 && g.Witness != nil && depth == 0 && g.R.Chance(1, 3) {
+		return g.Witness
+	}
 	if t == "any" || t == "" {
+		if g.Size > 0 && len(h.ins) > 0 && g.R.Chance(3, 4) {
+			// any member of the enumeration, whatever its position, or its kin
+			v := fw.Pick(g.R, h.ins)
+			if g.R.Chance(1, 2) {
+				if sibs := g.Siblings(v, 0); len(sibs) > 0 {
+					return fw.Pick(g.R, sibs)
+				}
+			}
+			return v
+		}
 		if len(h.notV) > 0 && g.R.Chance(3, 5) {
 			return g.ForSchema(fw.Pick(g.R, h.notV), depth+1)
 		}
@@ -837,6 +859,9 @@ func (g *Gen) typed(t string, cons []*Cons, depth int) *Value {
 		if len(h.lens) > 0 {
 			pool = append(pool, g.strOfLen(g.wantLen(h, 5)), g.strOfLen(g.wantLen(h, 5)))
 		}
+		if g.Size > 0 && len(pool) > 0 && g.R.Chance(1, 5) {
+			return Str(g.nearMiss(fw.Pick(g.R, pool)))
+		}
 		if len(pool) > 0 && g.R.Chance(5, 6) {
 			return Str(fw.Pick(g.R, pool))
 		}
@@ -852,12 +877,25 @@ func (g *Gen) typed(t string, cons []*Cons, depth int) *Value {
 		return Fun(fw.Pick(g.R, []string{"(lambda (x) x)", "car", "(lambda () 1)"}))
 	case "array":
 		n := g.wantLen(h, 4)
-		if n > 8 {
+		odd := -2 // index of the one element not aimed at an alternative; -2: every element takes its chances
+		if g.Size > 0 {
+			if len(h.lens) == 0 && depth == 0 && g.R.Bool() {
+				n = g.sizedN(5, g.Size)
+			}
+			if n > g.Size+2 {
+				n = g.Size + 2
+			}
+			if n > 0 && g.R.Chance(3, 4) {
+				// a long array survives element-by-element judgement only if every
+				// element is aimed; one odd element at any position, or none
+				odd = g.R.Range(-1, n-1)
+			}
+		} else if n > 8 {
 			n = 8
 		}
 		a := &Value{K: VArr, Elems: []*Value{}}
 		for i := 0; i < n; i++ {
-			if len(h.ofs) > 0 && len(h.ofs[0].Refs) > 0 && g.R.Chance(9, 10) {
+			if len(h.ofs) > 0 && len(h.ofs[0].Refs) > 0 && (odd == -2 && g.R.Chance(9, 10) || odd > -2 && odd != i) {
 				a.Elems = append(a.Elems, g.ForRef(fw.Pick(g.R, fw.Pick(g.R, h.ofs).Refs), depth+1))
 			} else {
 				a.Elems = append(a.Elems, g.scalar())
@@ -872,12 +910,31 @@ func (g *Gen) typed(t string, cons []*Cons, depth int) *Value {
 			}
 			m.Entries = append(m.Entries, Entry{Key: k, Sym: g.R.Chance(2, 5), Val: v})
 		}
-		for _, c := range h.keys {
+		// Size > 0, half of the maps: a complete record (every required key, aimed
+		// values), less one key at any position (1 in 4)
+		complete, dropped := g.Size > 0 && len(h.keys) > 0 && g.R.Bool(), -1
+		if complete && g.R.Chance(1, 4) {
+			dropped = g.R.Intn(len(h.keys))
+		}
+		for i, c := range h.keys {
 			switch c.Op {
 			case "has-key", "may-have-key":
 				p := 6
 				if c.Op == "has-key" {
 					p = 9
+				}
+				if complete {
+					if i == dropped {
+						continue
+					}
+					if c.Op == "has-key" || g.R.Chance(6, 10) {
+						if len(c.Refs) > 0 {
+							put(c.Key, g.ForRef(fw.Pick(g.R, c.Refs), depth+1))
+						} else {
+							put(c.Key, g.scalar())
+						}
+					}
+					continue
 				}
 				if g.R.Chance(p, 10) {
 					if len(c.Refs) > 0 && g.R.Chance(5, 6) {
